@@ -57,17 +57,17 @@ static Validity dagValidity(const DAGlobalGraph& D) {
   return v;
 }
 // judge the two answers against the definition; a raised bpp::Exception counts as "not true" (see note)
-static void judgeValidity(vf::Case& c, const char* what, const Validity& v, bool ref, const std::string& ctx) {
+template<class F> static void judgeValidity(vf::Case& c, const char* what, const Validity& v, bool ref, F ctx) {   // ctx: callable giving the description (built only on failure)
   if (v.freshRaised || v.cachedRaised) c.tag(std::string(what) + "-validity-raised");
-  if (v.fresh != ref) c.fail(std::string("validity|") + what + "-predicate-differs-from-definition", ctx + ": fresh answer " + str(v.fresh) + ", definition " + str(ref));
-  else if (v.cached != v.fresh) c.fail(std::string("validity|") + what + "-isValid-stale-cache", ctx + ": isValid() answers " + str(v.cached) + " but a fresh evaluation gives " + str(v.fresh) + " (definition " + str(ref) + ")");
+  if (v.fresh != ref) c.fail(std::string("validity|") + what + "-predicate-differs-from-definition", ctx() + ": fresh answer " + str(v.fresh) + ", definition " + str(ref));
+  else if (v.cached != v.fresh) c.fail(std::string("validity|") + what + "-isValid-stale-cache", ctx() + ": isValid() answers " + str(v.cached) + " but a fresh evaluation gives " + str(v.fresh) + " (definition " + str(ref) + ")");
 }
 
 // ------------------------------------------------------------------------------------------------
 // rootAt clauses (graph level)
 // ------------------------------------------------------------------------------------------------
 // returns true when the tree is now correctly rooted at r (so that the queries can be judged)
-static bool judgeReroot(vf::Case& c, const TreeGlobalGraph& T, const std::vector<EdgeRec>& before, unsigned r, bool raised, bool wasUnrooted, const std::string& ctx) {
+template<class F> static bool judgeReroot(vf::Case& c, const TreeGlobalGraph& T, const std::vector<EdgeRec>& before, unsigned r, bool raised, bool wasUnrooted, F ctxf) {
   std::vector<EdgeRec> after = edgesOf(T);
   GView g = viewOf(T);
   bool okRoot = !raised && g.root == r && g.directed;
@@ -79,16 +79,19 @@ static bool judgeReroot(vf::Case& c, const TreeGlobalGraph& T, const std::vector
   for (auto& e : after) { try { if ((int)T.getEdge((unsigned)e[1], (unsigned)e[2]) != e[0]) okEdges = false; } catch (bpp::Exception&) { okEdges = false; } }
   bool good = true;
   if (wasUnrooted) {
-    // one clause: an un-rooted (undirected) valid tree must become the tree rooted at r
-    if (raised || !okRoot || !okValid) { c.fail("rootAt|unrooted-tree-not-rerooted", ctx + (raised ? ": raised an exception" : "") + "; now " + g.str() + " valid=" + str(v.cached)); good = false; }
-  } else {
-    if (raised) { c.fail("rootAt|raises-on-valid-tree", ctx); good = false; }
-    else {
-      if (!okRoot) { c.fail("rootAt|new-root-not-unique-fatherless-node", ctx + "; now " + g.str()); good = false; }
-      if (!okValid) { c.fail("rootAt|tree-invalid-afterwards", ctx + "; now " + g.str() + " fresh=" + str(v.fresh) + " cached=" + str(v.cached)); good = false; }
+    // one clause: an un-rooted (undirected) valid tree must become the tree rooted at r, every edge keeping its identity
+    if (raised || !okRoot || !okValid || !okEdges) {
+      c.fail("rootAt|unrooted-tree-not-rerooted", ctxf() + (raised ? ": raised an exception" : "") + (okEdges ? "" : ": edge table " + edgesStr(after) + " disagrees with the links or with the edges before " + edgesStr(before)) + "; now " + g.str() + " valid=" + str(v.cached));
+      good = false;
     }
+    return good;
   }
-  if (!okEdges) { c.fail("rootAt|edge-ids-or-end-points-changed", ctx + "; before " + edgesStr(before) + " after " + edgesStr(after)); good = false; }
+  if (raised) { c.fail("rootAt|raises-on-valid-tree", ctxf()); good = false; }
+  else {
+    if (!okRoot) { c.fail("rootAt|new-root-not-unique-fatherless-node", ctxf() + "; now " + g.str()); good = false; }
+    if (!okValid) { c.fail("rootAt|tree-invalid-afterwards", ctxf() + "; now " + g.str() + " fresh=" + str(v.fresh) + " cached=" + str(v.cached)); good = false; }
+  }
+  if (!okEdges) { c.fail("rootAt|edge-ids-or-end-points-changed", ctxf() + "; before " + edgesStr(before) + " after " + edgesStr(after)); good = false; }
   return good;
 }
 
@@ -126,10 +129,11 @@ static void judgeQueries(vf::Case& c, const TreeGlobalGraph& T, const RefTree& R
     unsigned m1 = T.MRCA(std::vector<unsigned>{(unsigned)x});
     if ((int)m1 != x) c.fail("queries|MRCA", cx + ": MRCA({x})=" + str(m1));
   }
+  uint64_t nRelated = 0, nUnrelated = 0;
   for (int a = 0; a < n; ++a) for (int b = 0; b < n; ++b) {
       if (a == b) continue;
       bool related = R.isAnc(a, b) || R.isAnc(b, a);
-      c.tag(related ? "pair:ancestor-descendant" : "pair:unrelated");
+      (related ? nRelated : nUnrelated)++;
       c.site("TreeGraphImpl::getNodePathBetweenTwoNodes");
       std::vector<int> p = toInt(T.getNodePathBetweenTwoNodes(a, b, true));
       if (p != R.path(a, b, true)) c.fail("queries|node-path", ctx + " from " + str(a) + " to " + str(b) + ": got " + lst(p) + " expected " + lst(R.path(a, b, true)));
@@ -144,6 +148,7 @@ static void judgeQueries(vf::Case& c, const TreeGlobalGraph& T, const RefTree& R
         if ((int)m != R.mrca(a, b)) c.fail("queries|MRCA", ctx + ": MRCA({" + str(a) + "," + str(b) + "})=" + str(m) + " expected " + str(R.mrca(a, b)));
       } catch (bpp::Exception& e) { c.fail("queries|MRCA", ctx + ": MRCA({" + str(a) + "," + str(b) + "}) raised: " + e.what()); }
     }
+  if (!c.muted) { if (nRelated) c.out->hist["pair:ancestor-descendant"] += nRelated; if (nUnrelated) c.out->hist["pair:unrelated"] += nUnrelated; }
   for (int a = 0; a < n; ++a) for (int b = a + 1; b < n; ++b) for (int d = b + 1; d < n; ++d) {
         c.site("TreeGraphImpl::MRCA");
         std::vector<int> s{a, b, d};
@@ -169,7 +174,7 @@ static void treeCase(vf::Case& c, const std::vector<int>& par, int r, const std:
   TreeGlobalGraph T(true);
   buildTree(T, par);
   c.site("TreeGraphImpl::isValid");
-  judgeValidity(c, "tree", treeValidity(T), true, ctx + " after construction");
+  judgeValidity(c, "tree", treeValidity(T), true, [&] { return ctx + " after construction"; });
   if (!T.isValid() || !T.isRooted()) return;
   std::vector<EdgeRec> before = edgesOf(T);
   int root = 0;
@@ -177,7 +182,7 @@ static void treeCase(vf::Case& c, const std::vector<int>& par, int r, const std:
     bool raised = false;
     c.site("TreeGraphImpl::rootAt");
     try { T.rootAt((unsigned)r); } catch (bpp::Exception&) { raised = true; }
-    if (!judgeReroot(c, T, before, (unsigned)r, raised, false, ctx)) return;
+    if (!judgeReroot(c, T, before, (unsigned)r, raised, false, [&] { return ctx; })) return;
     root = r;
     c.tag("rerooted");
   }
@@ -233,13 +238,13 @@ static void spaceUnrootReroot(vf::Runner& R, int nmax) {
     c.site("TreeGraphImpl::unRoot");
     T.unRoot(false);
     if (T.isRooted()) c.fail("unRoot|still-rooted", ctx);
-    judgeValidity(c, "tree", treeValidity(T), true, ctx + " after unRoot(false)");
+    judgeValidity(c, "tree", treeValidity(T), true, [&] { return ctx + " after unRoot(false)"; });
     if (unoriented(edgesOf(T)) != unoriented(before)) c.fail("unRoot|edge-ids-or-end-points-changed", ctx);
     bool raised = false;
     c.site("TreeGraphImpl::rootAt (unrooted)");
     try { T.rootAt((unsigned)r); } catch (bpp::Exception&) { raised = true; }
     c.tag(raised ? "reroot-unrooted:raised" : "reroot-unrooted:returned");
-    if (!judgeReroot(c, T, before, (unsigned)r, raised, true, ctx)) return;
+    if (!judgeReroot(c, T, before, (unsigned)r, raised, true, [&] { return ctx; })) return;
     RefTree Rf(n, before, r);
     judgeQueries(c, T, Rf, ctx);
   }, 10.0);
@@ -442,7 +447,7 @@ static void spaceObserverEdit(vf::Runner& R, int nmax) {
     // validity after the edit
     c.site("AssociationTreeGraphImplObserver::isValid");
     GView g = viewOf(G);
-    judgeValidity(c, "tree", treeValidity(G), refIsTree(g), ctx + " giving " + g.str());
+    judgeValidity(c, "tree", treeValidity(G), refIsTree(g), [&] { return ctx + " giving " + g.str(); });
   }, 10.0);
 }
 
@@ -538,9 +543,22 @@ struct TreeSys : vf::SysBase {
       case DELETE: return has(o.a) && (dir || (indeg(o.a) == 0 && outdeg(o.a) == 0));
       case ROOTAT: return has(o.a);
       case OUTGROUP: return has(o.a) && T->highestNodeID_ + 2 <= (unsigned)N;
-      case UNROOTJOIN: return dir;
+      case UNROOTJOIN: {
+        if (!dir) return false;
+        // joining the two sons of the root links them: not when they are linked already (parallel link)
+        if (has((int)T->root_) && outdeg((int)T->root_) == 2) { auto& m = T->nodeStructure_.at(T->root_).first; unsigned s0 = m.begin()->first, s1 = m.rbegin()->first; if (arc((int)s0, (int)s1)) return false; }
+        return true;
+      }
       default: return true;
     }
+  }
+  // node table and edge table describe the same links (their agreement is property C14; here it only guards the judgements)
+  bool consistent() const {
+    size_t arcs = 0; for (auto& nd : T->nodeStructure_) arcs += nd.second.first.size();
+    if (!T->directed_) arcs /= 2;
+    if (arcs != T->edgeStructure_.size()) return false;
+    for (auto& e : T->edgeStructure_) { auto it = T->nodeStructure_.find(e.second.first); if (it == T->nodeStructure_.end()) return false; auto jt = it->second.first.find(e.second.second); if (jt == it->second.first.end() || jt->second != e.first) return false; }
+    return true;
   }
   std::string canon() const {
     std::map<unsigned, int> rank; int k = 0; for (auto& e : T->edgeStructure_) rank[e.first] = k++;
@@ -560,8 +578,9 @@ struct TreeSys : vf::SysBase {
   void apply(int op, vf::Case& c) {
     Op o = decode(op);
     bool judge = !c.muted;
-    std::string before, on; GView pre; std::vector<EdgeRec> preEdges; bool preValid = false;
-    if (judge) { before = canon(); on = opname(op); pre = viewOf(*T); preEdges = edgesOf(*T); preValid = refIsTree(pre); }
+    std::string before; GView pre; std::vector<EdgeRec> preEdges; bool preValid = false;
+    bool preConsistent = true;
+    if (judge) { before = canon(); pre = viewOf(*T); preEdges = edgesOf(*T); preValid = refIsTree(pre); preConsistent = consistent(); }
     bool raised = false, answer = false;
     try {
       switch (o.k) {
@@ -580,17 +599,19 @@ struct TreeSys : vf::SysBase {
       }
     } catch (bpp::Exception&) { raised = true; }
     if (!judge) return;
-    std::string ctx = "tree container in state [" + pre.str() + "] after " + on;
+    auto ctx = [&] { return "tree container in state [" + pre.str() + "] after " + opname(op); };
     GView g = viewOf(*T);
+    bool ref = refIsTree(g);
     c.site("TreeGraphImpl::isValid (history)");
-    judgeValidity(c, "tree", treeValidity(*T), refIsTree(g), ctx + " giving [" + g.str() + "]");
-    if (o.k == ISVALID && !raised && answer != preValid) c.fail("validity|tree-isValid-stale-cache", ctx + ": answered " + str(answer));
-    if (o.k == ISROOTED && (raised || answer != pre.directed)) c.fail("rootedness|tree-isRooted", ctx + ": answered " + str(answer));
-    if (o.k == ROOTAT && preValid) { judgeReroot(c, *T, preEdges, (unsigned)o.a, raised, !pre.directed, ctx); c.tag(pre.directed ? "history:rootAt-on-valid-rooted-tree" : "history:rootAt-on-valid-unrooted-tree"); }
+    judgeValidity(c, "tree", treeValidity(*T), ref, [&] { return ctx() + " giving [" + g.str() + "]"; });
+    if (o.k == ISVALID && !raised && answer != preValid) c.fail("validity|tree-isValid-stale-cache", ctx() + ": answered " + str(answer));
+    if (o.k == ISROOTED && (raised || answer != pre.directed)) c.fail("rootedness|tree-isRooted", ctx() + ": answered " + str(answer));
+    if (!consistent()) c.tag("tree-state:edge-table-disagrees-with-node-table");
+    if (o.k == ROOTAT && preValid && preConsistent) { judgeReroot(c, *T, preEdges, (unsigned)o.a, raised, !pre.directed, ctx); c.tag(pre.directed ? "history:rootAt-on-valid-rooted-tree" : "history:rootAt-on-valid-unrooted-tree"); }
     if (canon() != before) c.nontrivial();
-    std::string nm = on.substr(0, on.find('('));
-    c.tag("tree-op:" + nm + (raised ? ":raised" : ""));
-    if (refIsTree(g)) c.tag("tree-state:valid"); else c.tag("tree-state:invalid");
+    static const char* kn[] = {"createNode", "createNodeFromNode", "setFather", "addSon", "removeSon", "deleteNode", "rootAt", "setOutGroup", "unRoot", "unRoot", "isValid", "isRooted"};
+    c.tag(std::string("tree-op:") + kn[o.k] + (raised ? ":raised" : ""));
+    c.tag(ref ? "tree-state:valid" : "tree-state:invalid");
   }
 };
 
@@ -601,7 +622,7 @@ struct DagSys : vf::SysBase {
   enum { N = 4 };
   enum Kind { CREATE, ADDSON, ADDFATHER, REMOVESON, REMOVEFATHER, DELETE, ISVALID, ISROOTED };
   std::unique_ptr<DAGlobalGraph> D;
-  DagSys() : D(new DAGlobalGraph(true)) {}
+  explicit DagSys(int initialNodes) : D(new DAGlobalGraph(true)) { for (int i = 0; i < initialNodes; ++i) D->createNode(); }
   static int nops() { return 1 + 4 * N * N + N + 2; }
   struct Op { Kind k; int a, b; };
   static Op decode(int op) {
@@ -657,8 +678,8 @@ struct DagSys : vf::SysBase {
   void apply(int op, vf::Case& c) {
     Op o = decode(op);
     bool judge = !c.muted;
-    std::string before, on; GView pre;
-    if (judge) { before = canon(); on = opname(op); pre = viewOf(*D); }
+    std::string before; GView pre;
+    if (judge) { before = canon(); pre = viewOf(*D); }
     bool raised = false, answer = false;
     try {
       switch (o.k) {
@@ -673,25 +694,26 @@ struct DagSys : vf::SysBase {
       }
     } catch (bpp::Exception&) { raised = true; }
     if (!judge) return;
-    std::string ctx = "DAG container in state [" + pre.str() + "] after " + on;
+    auto ctx = [&] { return "DAG container in state [" + pre.str() + "] after " + opname(op); };
     GView g = viewOf(*D);
     if (g.nodes.empty()) { c.tag("dag-state:empty"); }
     else {
       c.site("DAGraphImpl::isValid (history)");
       bool ref = refIsDag(g);
-      judgeValidity(c, "dag", dagValidity(*D), ref, ctx + " giving [" + g.str() + "]");
-      if (o.k == ISVALID && (raised || answer != ref)) c.fail("validity|dag-isValid-stale-cache", ctx + ": answered " + str(answer));
+      judgeValidity(c, "dag", dagValidity(*D), ref, [&] { return ctx() + " giving [" + g.str() + "]"; });
+      if (o.k == ISVALID && (raised || answer != ref)) c.fail("validity|dag-isValid-stale-cache", ctx() + ": answered " + str(answer));
       // rootedness (DAGraph.h: "has only one node with no father"), judged on acyclic graphs; what the object would answer now (on a copy)
       if (ref) {
         c.site("DAGraphImpl::isRooted (history)");
         DAGlobalGraph cp(*D); bool rooted = cp.isRooted();
-        if (rooted != (fatherless(g) == 1)) c.fail("rootedness|dag-isRooted-differs-from-definition", ctx + " giving [" + g.str() + "]: isRooted() would answer " + str(rooted) + " but " + str(fatherless(g)) + " node(s) have no father");
+        if (rooted != (fatherless(g) == 1)) c.fail("rootedness|dag-isRooted-differs-from-definition", ctx() + " giving [" + g.str() + "]: isRooted() would answer " + str(rooted) + " but " + str(fatherless(g)) + " node(s) have no father");
         c.tag(fatherless(g) == 1 ? "dag-state:rooted" : "dag-state:several-roots");
       }
       c.tag(ref ? "dag-state:acyclic" : "dag-state:cyclic");
     }
     if (canon() != before) c.nontrivial();
-    c.tag("dag-op:" + on.substr(0, on.find('(')) + (raised ? ":raised" : ""));
+    static const char* kn[] = {"createNode", "addSon", "addFather", "removeSon", "removeFather", "deleteNode", "isValid", "isRooted"};
+    c.tag(std::string("dag-op:") + kn[o.k] + (raised ? ":raised" : ""));
   }
 };
 
@@ -719,12 +741,14 @@ int main(int argc, char** argv) {
   // E1 histories: from the empty graph, and from seed trees so that bounded depth reaches edits of 4- and 5-node trees
   exploreTree(R, {}, th ? 6 : 5);
   for (uint64_t t = 0; t < nRecursive(4); ++t) exploreTree(R, recursiveTree(4, t), th ? 4 : 3);
-  exploreTree(R, {-1, 0, 0}, th ? 5 : 4);
-  exploreTree(R, {-1, 0, 1}, th ? 5 : 4);
+  exploreTree(R, {-1, 0, 0}, th ? 5 : 3);
+  exploreTree(R, {-1, 0, 1}, th ? 5 : 3);
   exploreTree(R, {-1, 0, 0, 1, 1}, th ? 3 : 2);
   exploreTree(R, {-1, 0, 1, 2, 3}, th ? 3 : 2);
   exploreTree(R, {-1, 0, 1, 1, 0}, th ? 3 : 2);
-  R.explore("dag-history:ids<=4:d" + str(th ? 7 : 6), th ? 7 : 6, DagSys::nops(), []() { return std::unique_ptr<DagSys>(new DagSys()); }, 10.0);
+  R.explore("dag-history:ids<=4:from-empty:d5", 5, DagSys::nops(), []() { return std::unique_ptr<DagSys>(new DagSys(0)); }, 10.0);
+  R.explore("dag-history:ids<=4:from-3-isolated-nodes:d" + str(th ? 5 : 4), th ? 5 : 4, DagSys::nops(), []() { return std::unique_ptr<DagSys>(new DagSys(3)); }, 10.0);
+  R.explore("dag-history:ids<=4:from-4-isolated-nodes:d" + str(th ? 5 : 4), th ? 5 : 4, DagSys::nops(), []() { return std::unique_ptr<DagSys>(new DagSys(4)); }, 10.0);
 
   R.expectSeen("pair:ancestor-descendant"); R.expectSeen("pair:unrelated"); R.expectSeen("rerooted");
   R.expectSeen("digraph:is-tree"); R.expectSeen("digraph:not-tree"); R.expectSeen("digraph:acyclic"); R.expectSeen("digraph:cyclic");
